@@ -1730,6 +1730,9 @@ impl<'a, 'b, W: Write> Serializer for &'a mut YamlSerializer<'b, W> {
             self.write_plain_or_quoted(variant)?;
             self.out.write_str(":\n")?;
             self.at_line_start = true;
+            // The label ends its line: an inline hint staged by the parent (the value of an
+            // explicit `? key` entry) does not reach the fields.
+            self.pending_inline_map = false;
             // Fields indent one more level under the variant label.
             let depth_next = base + 1;
             return Ok(StructVariantSer {
@@ -1813,10 +1816,12 @@ impl<'a, 'b, W: Write> SerializeSeq for SeqSer<'a, 'b, W> {
             if !self.first && self.ser.inline_map_after_dash {
                 self.ser.inline_map_after_dash = false;
             }
-            if self.first && (!self.ser.at_line_start || self.ser.pending_inline_map) {
+            if self.first && !self.ser.at_line_start {
                 // Inline the first element of this nested sequence right after the outer dash
-                // (either we are already mid-line, or the parent staged inline via pending_inline_map).
-                // Do not write indentation here.
+                // (we are mid-line). Do not write indentation here. At the start of a line there
+                // is nothing to continue: the dash is indented like every other item (an
+                // inline hint staged for the value of an explicit `? key` entry does not apply
+                // to a sequence, which has been moved to its own line).
             } else {
                 self.ser.write_indent(self.depth)?;
             }
@@ -2324,7 +2329,10 @@ impl<'a, 'b, W: Write> SerializeMap for MapSer<'a, 'b, W> {
                 }
                 self.ser.out.write_str(":")?;
                 self.ser.pending_space_after_colon = true;
-                self.ser.pending_inline_map = true;
+                // A mapping value starts on the `:` line (`: x: 3`): its first key then sits two
+                // columns right of the `:`, where the following keys are indented only when the
+                // indentation step is 2. For any other step the mapping starts on its own line.
+                self.ser.pending_inline_map = self.ser.indent_step == 2;
                 self.ser.at_line_start = false;
                 self.ser.depth = self.depth;
             }
